@@ -177,6 +177,9 @@ func prop(t *rapid.T) {
 	if len(c.tb.Routes) == 0 {
 		t.Skip("empty table")
 	}
+	if model.LongPrefix(t, c.tb.Routes, 6) {
+		ev.Class("table:all-routes-below-a-long-first-segment")
+	}
 	var twin *rux.Router
 	if rapid.IntRange(0, 3).Draw(t, "intercept") == 0 {
 		p, _, _, _, _ := model.GenProbePath(t, c.tb.Routes)
